@@ -35,6 +35,9 @@ func envBytes(payload []byte, name string, system bool, sa, sp, ra, rp string) [
 
 // healthy makes sure a live connection from -> to exists and returns it
 func (h *H) healthy(from, to *Node) *PConn {
+	if h.abort {
+		return nil
+	}
 	cs := to.Proxy.Conns(0)
 	if len(cs) > 0 && cs[len(cs)-1].Alive() {
 		// prove it with a sync
@@ -46,6 +49,10 @@ func (h *H) healthy(from, to *Node) *PConn {
 		}
 	}
 	if !h.resync(from, to, func(int) Plan { return defaultPlan() }) {
+		if !h.abort {
+			h.o.Monitor("c14-no-recovery", nil, "no message got through a fresh connection within 15 s although the peer is reachable; remaining scenarios skipped")
+		}
+		h.abort = true
 		return nil
 	}
 	return to.Proxy.Conns(0)[to.Proxy.NConns()-1]
@@ -138,6 +145,9 @@ func (h *H) tellBlocking() {
 
 // ---- S4: the tail of an old connection arrives after the head of its successor ----
 func (h *H) overlap(A, B *Node) {
+	if h.abort {
+		return
+	}
 	B.Proxy.KillAll()
 	first := B.Proxy.NConns()
 	B.Proxy.SetPlan(func(i int) Plan {
@@ -507,7 +517,6 @@ func (sc *scenario) flush(h *H, max int) bool {
 func (h *H) cutAt(A, B *Node, k int64, frameLen func(*XMsg) int, sizes []int) {
 	c := h.healthy(A, B)
 	if c == nil {
-		h.o.Monitor("c14-no-recovery", lib.L(lib.S("cut"), lib.N(uint64(k))), "no healthy connection could be established before the scenario")
 		return
 	}
 	sc := h.begin(fmt.Sprintf("cut@%d/limit%d", k, A.Limit), A, B, c, k)
@@ -552,6 +561,16 @@ func (h *H) refused(A, B *Node, frameLen func(*XMsg) int) {
 				h.o.Monitor("c14-dead-letter-missing", lib.L(lib.S(sc.name)), fmt.Sprintf("%s: %d refused dials (RetryCounts %v) and no dead letter", sc.name, len(co.retry), co.retry))
 			}
 			if co.nsf == 0 {
+				// "after the configured reconnect attempts": exactly limit+1 dials, RetryCount 0..limit
+				okc := len(co.retry) == A.Limit+1
+				for i, r := range co.retry {
+					if r != i {
+						okc = false
+					}
+				}
+				if !okc {
+					h.o.Monitor("c14-retry-count", lib.L(lib.S(sc.name)), fmt.Sprintf("%s: ReconnectLimit=%d but the refused message was dialled with RetryCounts %v (want 0..%d) before its dead letter", sc.name, A.Limit, co.retry, A.Limit))
+				}
 				break
 			}
 		}
@@ -688,6 +707,9 @@ func (h *H) unencodable(A, B *Node, frameLen func(*XMsg) int) {
 // garbage: the proxy injects an undecodable frame, a frame with a foreign payload and a frame with a bad envelope
 // between real frames of a fresh connection: none of them may stop the later frames
 func (h *H) garbage(A, B *Node, frameLen func(*XMsg) int) {
+	if h.abort {
+		return
+	}
 	junk := h.r.Bytes(40)
 	junk[0] = 0xff // the first length field of the envelope is out of range: the envelope does not parse
 	badPayload := envBytes([]byte("not an XMsg payload"), "", false, A.Adv, "/", B.Adv, "/recv")
@@ -811,7 +833,6 @@ func (h *H) runLink() {
 			// frame length of a direct Tell with n data bytes: learnt from a Sent event
 			c := h.healthy(A, B)
 			if c == nil {
-				h.o.Monitor("c14-no-recovery", nil, "no connection at all")
 				return
 			}
 			co := h.call(A, B, &XMsg{Kind: KSync, Seq: 1 << 50})
